@@ -327,4 +327,15 @@ pub fn run(ctx: &mut Ctx) {
     );
     ctx.require_label("corpus", 20);
     ctx.require_label("generated", 100);
+    if ctx.tier == Tier::Thorough && ctx.failures.is_empty() {
+        // coverage-guided stage: the fuzzer mutates generated programs (and the repository's inputs); the oracle in the
+        // target is this check's check_record
+        let mut seeds: Vec<Vec<u8>> = sample_strategy(&progen::choices_strategy(400), ctx.seed ^ 0xf04, 300)
+            .iter()
+            .enumerate()
+            .map(|(i, ch)| progen::generate(ch, if i % 3 == 0 { progen::Profile { pipelines: false, ..progen::Profile::full() } } else { progen::Profile::exec_hlsl() }).1.into_bytes())
+            .collect();
+        
+        crate::fuzz::campaign(ctx, "text_property", Some("C04"), seeds, 300, &|bytes: &[u8]| json!({"kind": "text", "source": String::from_utf8_lossy(bytes).to_string()}), &check_record);
+    }
 }
